@@ -738,6 +738,22 @@ def dict_method(ex, d: Val, name, args, kwargs, s: St):
         yield s, r
     elif name == "move_to_end":
         yield s, Val(smt.NONE, NONE_T)  # order component not modelled for plain dicts
+    elif name == "popitem":
+        # insertion order is not modelled: SOME present key is removed (an over-approximation of both ends); empty -> KeyError
+        n = h.c["dn"][d.t]
+        s_empty = s.fork().assume(n == 0)
+        s_some = s.fork().assume(n > 0)
+        if ex.feasible(s_empty):
+            yield s_empty, Raised("KeyError", None, {"by": "popitem"})
+        if ex.feasible(s_some):
+            k = smt.fresh_v("popped")
+            s_some.assume(h.c["dh"][d.t][k])
+            kv_ = Val(k, kty)
+            s_some.assume(*type_facts(kv_, s_some))
+            v = ex.typed_read(h.c["dv"][d.t][k], vty, s_some)
+            dict_del(s_some, d.t, k)
+            ex.note_write(s_some, "dict", d)
+            yield s_some, TupVal([kv_, v])
     else:
         raise Unsupported(f"dict.{name}")
 
